@@ -14,7 +14,7 @@ N(n)    == Lit(IntV(n))
 Obj(f)  == ObjV(f)
 
 D == [ o |-> Obj(("1" :> StrV("one")) @@
-                 [arr |-> ArrV(<<IntV(10), IntV(20), IntV(30)>>), size |-> IntV(7), first |-> StrV("f"),
+                 [arr |-> ArrV(<<IntV(10), IntV(20), IntV(30)>>), size |-> IntV(70), first |-> StrV("f"),   \* 70: not the number of keys (7), which the overlay would answer
                   e |-> ArrV(<<>>), n |-> Obj([k |-> StrV("v")]), v |-> IntV(3)]),
        a |-> ArrV(<<Obj([x |-> IntV(1)]), ArrV(<<IntV(5), IntV(6)>>), StrV("str"), NilV>>),
        i |-> IntV(1), j |-> IntV(0 - 1), k |-> StrV("x"), s |-> StrV("arr"), z |-> StrV("1") ]
